@@ -108,7 +108,8 @@ def main() -> int:
         for e_ in (res.get("manifest") or {}).get("endpoints") or []:
             if {p_["python_name"] for loc_ in e_["params"].values() for p_ in loc_} & {"kwargs", "response", "headers", "cookies", "params"}:
                 param_local_modules.add(f"{Path(res['outdir']).name}/api/{e_['tag']}/{e_['module']}.py")
-        for a, x in actions_results(res):
+        from ..harness import with_followups
+        for a, x in with_followups(actions_results(res)):
             if a["a"] == "import_all":
                 continue
             if x.get("action_exc"):
